@@ -484,6 +484,18 @@ func c16CheckLocal(c *vr.Report) {
 				anyValid = true
 			}
 		}
+		// AS 0 never matches - not even a route whose origin AS evaluates to 0 (which is what a nil source gives today)
+		{
+			rt := NewROATable(c16Logger)
+			rt.Add(c16ImplROA(c16Roa{P: route, MaxLen: route.Len, AS: 0}))
+			got, _, perr := c16ImplValidate(rt, p)
+			c.Eval()
+			c.Outcome("local-route-vs-AS0-roa:" + got)
+			if perr != "" || got != c16Invalid {
+				c.Violationf("C16/validate/as0-roa-not-invalid", c16VCase{Kind: "local", Route: ri},
+					"locally originated route %s covered only by an AS 0 ROA: want invalid, Validate says %s %s", c16RoutePrefixes[ri], got, perr)
+			}
+		}
 		c.NT(fmt.Sprintf("local/%d", ri))
 		c.Outcome("local-route:" + fmt.Sprint(verdicts[1], "/", verdicts[2]))
 		if !anyValid {
